@@ -343,7 +343,27 @@ def run_selout_traces(ctx, per_property="C05"):
         else:
             inp, users = gi.selout_input(ctx.rng)
             cfg = make_cfg(ctx.rng, users)
-        res = one_case(ctx, exe, inp, users, cfg)
+        if i >= ninv and ctx.rng.random() < 0.35:
+            # two consecutive calls on one instance: the views of the second call must describe the second call only
+            # (tables, strings and line vectors of the previous call must not show through when a switch was turned off)
+            inp2, users2 = inp, users      # same input again (definitions of call 1 persist; a different input is C04/C09 territory)
+            cfg2 = make_cfg(ctx.rng, sorted(set(users) | set(users2)))
+            # switches persist between calls: the effective configuration of call 2 is call 1's maps overridden by its own
+            cfg2["strsw"] = {**cfg["strsw"], **cfg2["strsw"]}
+            cfg2["filesw"] = {**cfg["filesw"], **cfg2["filesw"]}
+            for n in list(cfg["strsw"]):
+                if ctx.rng.random() < 0.5:
+                    cfg2["strsw"][n] = not cfg["strsw"][n]
+            both = run_calls(ctx, exe, [(cfg, inp), (cfg2, inp2)])
+            hist["two_call_sequences"] = hist.get("two_call_sequences", 0) + 1
+            if "crash" not in both[0] and len(both) == 2:
+                handle_result(ctx, inp2, cfg2, both[1], explained_by_switch_rule(cfg2))
+                evals += 1
+                if ctx.violations:
+                    break
+            res = both[0]
+        else:
+            res = one_case(ctx, exe, inp, users, cfg)
         evals += 1
         if "crash" in res:
             ctx.violation("harness run crashed / gave no result", {"input": inp, "cfg": cfg_json(cfg), "result": res})
